@@ -224,15 +224,6 @@ def sm_names(ctx):
                    'Parameters.apply: name letters (%s) = transform[%s]' % (vars_, idx), f=m,
                    node=sb, why='simulator table column sm_{%s}{%s} holds transform[%s]'
                                 % (vars_[0], vars_[1], ', '.join(idx)))
-    # the simulated model itself: x_out = T x  (mv_prod(transform, readings), no transpose)
-    ap = pm.methods['apply']
-    mv = [n for n in ast.walk(ap.node) if isinstance(n, ast.Call) and
-          ap.module.resolve(n.func, ap.local_names()) == 'pyins.util.mv_prod']
-    okm = len(mv) == 1 and norm_text(mv[0].args[0]) == 'self.transform' and \
-        len(mv[0].args) == 2 and not mv[0].keywords
-    ctx.ob('SM-ROLE', okm, None, 'simulator applies x_out = T @ x (rows = output axes)', f=ap,
-           node=(mv[0] if mv else ap.node), key='apply-T',
-           why='simulator does not apply the transform as T @ x')
 
 
 def sm_count(ctx):
@@ -619,3 +610,79 @@ def _dt_exponent(node, dt):
     if isinstance(node, (ast.Attribute, ast.Constant, ast.Subscript)):
         return Fraction(0)
     return None
+
+
+# -------------------------------------------------------------------- SM-APPLY
+from ..expr import SymEval, SArray, Rec, Obj, Opaque, Unsupported      # noqa: E402
+from ..nf import Alg, Rat                                               # noqa: E402
+
+
+class _AH:
+    """noise-free evaluation of Parameters.apply for the generic sample."""
+
+    def __init__(self):
+        self.frame = None
+
+    def attr(self, ev, base, a, node):
+        if isinstance(base, Opaque) and base.tag == 'rng':
+            A = ev.A
+            return lambda *x, **k: SArray((3,), {(i,): A.const(0) for i in range(3)}, None, True)
+        if isinstance(base, Opaque) and base.tag == 'index':
+            return None
+        return None
+
+    def call(self, ev, q, node, args, kwargs, env):
+        A = ev.A
+        if q == 'numpy.hstack' and isinstance(args[0], (list, tuple)) and len(args[0]) == 2 and \
+                isinstance(args[0][1], Opaque):
+            return A.sym('dt')
+        if q == 'numpy.diff':
+            return Opaque('diff')
+        if q == 'numpy.cumsum':
+            return args[0]
+        if q == 'pandas.DataFrame':
+            if 'data' in kwargs or args:
+                self.frame = kwargs.get('data', args[0] if args else None)
+            return Opaque('frame')
+        return NotImplemented
+
+
+def sm_apply(ctx):
+    ctx.rule('SM-APPLY', 'noise-free Parameters.apply(readings) == T @ x + bias * dt^k per sample '
+             '(k = 0 rate, 1 increment), with T = the transform whose [out, in] entries the '
+             'parameter table reports')
+    repo = ctx.repo
+    pm = repo.klass('inertial_sensor.Parameters')
+    ap = pm.methods['apply']
+    for mode, k in (('rate', 0), ('increment', 1)):
+        h = _AH()
+        ev = SymEval(repo, Alg(), hooks=h)
+        A = ev.A
+        o = Obj(pm)
+        T = SArray((3, 3), {(i, j): A.sym('t%d%d' % (i, j)) for i in range(3) for j in range(3)})
+        b = SArray((3,), {(i,): A.sym('b%d' % i) for i in range(3)})
+        z3 = SArray((3,), {(i,): A.const(0) for i in range(3)})
+        o.attrs.update(transform=T, bias=b, noise=z3, bias_walk=z3, rng=Opaque('rng'),
+                       data_frame=None)
+        x = Rec({'c%d' % i: A.sym('x%d' % i) for i in range(3)}, 'frame', index=Opaque('index'))
+        try:
+            ev.call_function(ap, [x, mode], {}, o)
+        except Unsupported as e:
+            raise AnalysisError('Parameters.apply (%s) not analysable: %s' % (mode, e))
+        res = h.frame
+        ctx.need(isinstance(res, SArray) and res.shape == (3,),
+                 'Parameters.apply (%s): returned data not recognised' % mode)
+        dt = A.sym('dt')
+        bad = []
+        for i in range(3):
+            want = A.mul(b.get((i,)), A.powi(dt, k))
+            for j in range(3):
+                want = A.add(want, A.mul(T.get((i, j)), A.sym('x%d' % j)))
+            if not A.eq(res.get((i,)), want):
+                bad.append('xyz'[i])
+        ctx.ob('SM-APPLY', not bad, None, "%s: output[i] = sum_j T[i, j] x[j] + bias[i] dt^%d"
+               % (mode, k), f=ap, key='apply-' + mode,
+               why="%s-type simulation (axes %s) does not apply x_out = T @ x + bias*dt^%d: the "
+                   "transform is applied transposed or the bias scaling is wrong, so the "
+                   "parameter table (sm_<out><in> = T[out, in]) and the estimator's correction "
+                   "no longer describe the simulated error" % (mode, bad, k))
